@@ -470,3 +470,84 @@ Fixpoint q_run (q : list tid) (ops : list qop) : list (option tid) :=
   | [] => []
   | o :: ops => let (q', out) := q_step q o in out :: q_run q' ops
   end.
+
+(* ---- Part 7: a step budget that suffices ------------------------------------ *)
+
+(* [W s] bounds the cost of running script s, children included.  A table has
+   such a certificate exactly when no script (transitively) spawns itself. *)
+Definition act_cost (W : nat -> nat) (a : action) : nat :=
+  match a with ASpawn s => 2 + W s | _ => 1 end.
+Definition wc (W : nat -> nat) (acts : list action) : nat := list_sum (map (act_cost W) acts).
+Definition cert (scripts : list script) (W : nat -> nat) : Prop :=
+  forall s, wc W (script_of scripts s) <= W s.
+
+Fixpoint plan_pot (W : nat -> nat) (plan : list xact) : nat :=
+  match plan with
+  | [] => 0
+  | XSpawn s :: plan => 1 + W s + plan_pot W plan
+  | _ :: plan => plan_pot W plan
+  end.
+
+Definition fuel_bound (W : nat -> nat) (plan : list xact) : nat :=
+  (plan_pot W plan + 1) * (plan_pot W plan + 1).
+
+(* the certificate computed for tables in which every script only spawns
+   scripts with a larger index (what the generator produces) *)
+Fixpoint wdepth (d : nat) (scripts : list script) (s : nat) : nat :=
+  match d with
+  | O => 0
+  | S d => wc (wdepth d scripts) (script_of scripts s)
+  end.
+Definition wtable (scripts : list script) : nat -> nat := wdepth (S (length scripts)) scripts.
+
+Definition spawns_up (scripts : list script) : Prop :=
+  forall i s, In (ASpawn s) (script_of scripts i) -> i < s.
+
+(* ---- Part 8: oracles for the parts outside the script systems -------------- *)
+
+(* one Sender/Receiver pair driven directly: a value is delivered at most
+   once, after it was sent, unaltered; a refused send hands the value back *)
+Fixpoint f_oracle (sent : option N) (delivered : bool) (l : list (fop * fout)) : bool :=
+  match l with
+  | [] => true
+  | (FSend v, FoSent _) :: l => match sent with None => f_oracle (Some v) delivered l | Some _ => false end
+  | (FSend v, FoSendErr v') :: l => N.eqb v v' && f_oracle sent delivered l
+  | (_, FoReady v) :: l | (_, FoTry (TOk v)) :: l =>
+      match sent with
+      | Some v0 => N.eqb v v0 && negb delivered && f_oracle sent true l
+      | None => false
+      end
+  | (FPoll _, FoPanic) :: l => delivered   (* documented: polled again after Ready *)
+  | (_, FoPanic) :: l => false
+  | _ :: l => f_oracle sent delivered l
+  end.
+
+(* after the executor was dropped: spawning must fail, waking must be silent,
+   and a receiver says "value, then already received" if its task finished and
+   twice the same "not sent"/"sender dropped" otherwise *)
+Definition final_ok_dead (o : ost) (roots : list tid) (obs : list (tid * (tryres * tryres))) : bool :=
+  list_eqb Nat.eqb roots (map fst obs) &&
+  forallb (fun p =>
+             match alookup (fst p) (o_vals o) with
+             | Some v => tryres_eqb (fst (snd p)) (TOk v) && tryres_eqb (snd (snd p)) TAlready
+             | None => tryres_eqb (fst (snd p)) (snd (snd p)) &&
+                       (tryres_eqb (fst (snd p)) TNotSent || tryres_eqb (fst (snd p)) TDropped)
+             end) obs.
+
+Definition cDead : N := 11.    (* spawn on a dropped executor succeeded, or a wake/spawn panicked *)
+Definition cPair : N := 12.    (* Sender/Receiver pair: value twice, altered, before the send, or a panic *)
+
+Definition dead_ok (tail : list dact) (outs : list dout) : bool :=
+  Nat.eqb (length tail) (length outs) &&
+  forallb (fun p => match p with
+                    | (DSpawn _, DoSpawnErr) | (DPulse _, DoQuiet) => true
+                    | _ => false
+                    end) (combine tail outs).
+
+Definition oracle_dead (log : list rec) (tail : list dact) (outs : list dout)
+    (obs : list (tid * (tryres * tryres))) : option N :=
+  match orecs ost0 log with
+  | inr k => Some k
+  | inl o => if negb (dead_ok tail outs) then Some cDead
+             else if final_ok_dead o (roots_of log) obs then None else Some cRelay
+  end.
